@@ -18,7 +18,7 @@ CHECKS = {
    note="Trusts the reference walker/demuxer in vsim/ref (written from ISO/IEC 14496-12, no mp4ff code) and the Go runtime; corpus files plus byte-surgery layout variants are the only file shapes; only contract-legal reader/writer behaviour is injected.",
    technique="deterministic simulation: SimDisk delivery/fault schedules + op histories vs ground-truth bytes, seeded, replayable, minimised"),
 }
-SETUP_TARGETS = "vsim race"
+SETUP_TARGETS = "vsim race crop"
 CHECKS["C02"] = dict(level="fault_enumeration", ref="6/C02",
    text="For each sampled node the write-failure points of Encode are enumerated completely (every write op k, every write boundary -1/0/+1 as device-full budget, every slice-writer shortfall d in 1..64) against the first clean encoding as model; histories of Size/Info/Encode/EncodeSW are seeded. Nodes and histories are sampled; fault points per node are enumerated.",
    note="Objects are nodes of decoded corpus files and packager-built productions only; EncodeSW success = nil error and nil accumulated error; objects with separately written (lazy) mdat payload excluded by the library's documented design; reference size walker vsim/ref trusted.",
@@ -51,6 +51,10 @@ CHECKS["C20"] = dict(level="exploration", ref="6/C20",
    text="Seeded search over interleavings of 2-6 caller goroutines with scripted work on their own objects derived from shared read-only inputs. Built with -race; goroutines are serialised by a baton invisible to the race detector, so each seed is one exactly replayable schedule while the detector still reports every conflicting access pair between tasks; plus output==solo-output, shared-input hash and registry fingerprint oracles; a free-running mode at GOMAXPROCS 1/4/16 cross-checks.",
    note="Trusts the Go race detector (assembly routines such as AES/XOR kernels are not instrumented: writes through them are caught by the input-hash oracle instead); registry-modifying calls excluded by the statement; one open known finding (slice-path aliasing + in-place crypto).",
    technique="deterministic simulation: tape-drawn serialised goroutine schedules under the race detector (race-invisible baton) + non-interference oracles")
+CHECKS["C10"] = dict(level="exploration", ref="6/C10",
+   text="The tool's inner function cropMP4 runs inside an in-package harness with both of its seams simulated: lazy input on a SimDisk (delivery schedules, EIO, seek errors, truncation) and a faulty output sink; inputs are corpus files, layout variants and raw-muxer files; whenever it returns nil the output is compared, by an independent demuxer, with the prefix the statement defines (exact integer arithmetic).",
+   note="Conditional on success (errors and panics impose nothing); no claim when no sync sample starts at or after the requested duration; run()/flags/os files are real and un-faulted (one smoke run); raw muxer and reference demuxer are ours, written from ISO/IEC 14496-12.",
+   technique="deterministic simulation: tool function between a simulated lazy disk and a faulty sink; prefix oracle from an independent sample-table expansion")
 PENDING = {k: "claimed in DESIGN.md but its check is not built yet in this revision (work in progress; will move to checks)" for k in ["C02","C03","C04","C05","C06","C10","C11","C12","C19","C20"] if k not in CHECKS}
 def main():
     checks = []
